@@ -256,7 +256,8 @@ pub fn encodings_for(pd: &PlanDesc, tier: Tier) -> Vec<(String, Encoding)> {
         e.referents = enc::permutation(n, k).iter().map(|x| *x as i32).collect();
         out.push(("referents-permuted".into(), e));
     }
-    for (lab, f) in [("sparse", (10, 5)), ("offset", (1, 1_000_000)), ("large", (1000, 0x7000_0000 / 2))] {
+    // "a referent is any Int32 and only -1 means null": negative numberings too
+    for (lab, f) in [("sparse", (10, 5)), ("offset", (1, 1_000_000)), ("large", (1000, 0x7000_0000 / 2)), ("negative", (-3, -7)), ("most-negative", (1, i32::MIN)), ("around-zero", (1, -2 - (n as i32) / 2 * 0 - 3))] {
         let mut e = base.clone();
         e.referents = (0..n as i32).map(|i| i * f.0 + f.1).collect();
         out.push((format!("referents-{}", lab), e));
